@@ -82,8 +82,32 @@ func buildC01(tier string, seed int64) *Family {
 		p += pick(r, oracle.Axes) + "::" + pick(r, nodeTests) + pick(r, seps) + pick(r, oracle.Axes) + "::" + pick(r, nodeTests) + pick(r, seps) + pick(r, oracle.Axes) + "::" + pick(r, nodeTests)
 		add(p, cfg3)
 	}
+	// descendant sandwiches: a descendant-type step, a non-descendant step, another
+	// descendant-type step. The builder passes "may skip the inside of a match" hints
+	// between steps; whether they leak only shows on same-named nesting (5 slots).
+	cfg5 := docCfg{N: 5, A: 0, Names: "a,b", Pool: ","}
+	if tier == "thorough" {
+		cfg5 = docCfg{N: 6, A: 1, Names: "a,b", Pool: ","}
+	}
+	for _, d1 := range []string{"descendant::a", "descendant-or-self::a", "//a", "/descendant::a", "descendant::*"} {
+		for i, mid := range []string{"b", "*", "..", "self::a", "following-sibling::*", "parent::*"} {
+			for j, d2 := range []string{"descendant::b", "/b", "descendant-or-self::*", "/*"} {
+				if tier != "thorough" && (i+j)%3 != 0 {
+					continue
+				}
+				sep := "/"
+				if d2[0] == '/' {
+					sep = "/" // d2 "/b" makes "//b"
+				}
+				add(d1+"/"+mid+sep+d2, cfg5)
+			}
+		}
+	}
+	for _, x := range []string{"//@a/..//b", "//@a/..//*", "//@*/../descendant::a", "descendant::a/@a/..//*", "//a/@a/../descendant::*"} {
+		add(x, cfg)
+	}
 	fam := &Family{
-		Instances: dedupInst(insts),
+		Instances: withReuse(dedupInst(insts), 1),
 		Canaries: []*vm.Instance{
 			canaryInst("H_nodeset", "child::a", "descendant::a", cfg),
 			canaryInst("H_nodeset", "following-sibling::*", "following::*", cfg),
